@@ -94,6 +94,10 @@ func (k *saveKeyValueStorage) ProcessBuiltinFunction(
 		}
 	}
 
+	// the check inside the loop is done only when a value changes
+	if input.GasProvided < useGas {
+		return nil, ErrNotEnoughGas
+	}
 	vmOutput.GasRemaining -= useGas
 
 	return vmOutput, nil
